@@ -198,6 +198,8 @@ class Script:
 
     def add_op(self, op, op_no):
         k = op["op"]
+        if k == "note":
+            return  # bookkeeping for the evidence (which kind of buffer a scenario starts from)
         if k == "reset":
             self.arenas = {}
             self._add("Z", op_no)
